@@ -8,7 +8,18 @@ reducers of relational_common.textbook.  Output columns are located by their doc
 ('<column>_<sum|mean|min|max|count|stdev>', the apply dict key); key columns by position (first).
 Floats compared with 1e-9 tolerance.
 Scope: agg_blocks(tier) plus every vector of length 1..4 over the value pools for the whole-column
-clause.
+clause.  agg_blocks includes (relational_common.extra_agg_blocks): keys that differ but collide in
+hash (-1 / -2, 0 / 2**61-1; alone and inside a composite key), over=[] (zero partition keys: the
+whole table is one group), bool and all-None value columns - there the dtype of every result column
+is compared with what Vector(<values>) infers (sum / count of a bool column: int column) - and
+groups of exactly one row.
+Histories (op 'repeat'): aggregate() is called repeatedly on ONE table object with different
+external key vectors that are created and dropped between the calls, and by a key (value) column
+that is overwritten through its live view between the calls: every call must reflect the keys of
+its own moment (no stale partition).
+Precision (op 'precision'): stdev of values that are large relative to their spread (1e9 + {.5,1,1.5},
+1790000001..3, 1e5 + {0,.05,.1}) through aggregate() and Vector.stdev() against an exact
+fractions.Fraction reference at relative tolerance 1e-9.
 """
 from relational_common import *  # noqa
 
@@ -21,6 +32,8 @@ REDUCERS = ['sum', 'mean', 'min', 'max', 'stdev']
 
 def cases(tier, seed):
     yield from agg_cases(tier, OP, heavy=False)
+    yield from repeat_cases(tier, OP)
+    yield from precision_cases(tier)
     for label, pool in WHOLE_POOLS:
         for n in range(1, 5):
             for combo in itertools.product(pool, repeat=n):
@@ -71,6 +84,8 @@ def check_groups(pid, op, res, setup, fails, descr):
             cls = 'empty-group' if empty and bad_on_empty else 'value'
             fails.append(Fail(f'{pid}:{op}:{agg}:{cls}', f'{descr}: v_{agg} differs from the textbook {agg} of each group\'s non-None values',
                               want, col, f'{pid}:{op}:{agg}:elem'))
+        elif case.get('dtypes'):
+            check_result_dtype(pid, op, agg, named_column(res, f'v_{agg}'), want, fails, descr)
     if case['apply']:
         gvals = [[setup.vals[i] for i in rows] for rows in grows]
         col = out_column(res, 'rec')
@@ -125,9 +140,46 @@ def eval_whole(case):
     return fails
 
 
+def eval_precision(case):
+    fails = []
+    vals = case['vals']
+    keys, grows = precision_groups(case)
+    descr = f"stdev of {vals!r} ({case['family']}, {case['layout']})"
+    want = [exact_stdev([vals[i] for i in rows]) for rows in grows]
+    try:
+        t = Table([Vector(list(keys), name='g'), Vector(list(vals), name='v')])
+        v = Vector(list(vals), name='v')
+    except Exception as e:
+        return [Fail(f'{PID}:setup:raises:{type(e).__name__}', f'{descr}: building the operands raised {e!r}', None, repr(e))]
+    try:
+        res = t.aggregate(over='g', stdev_over='v')
+        col = out_column(res, 'v_stdev')
+        m = truthful(res)
+        if m:
+            fails.append(Fail(f'C03:{OP}:truthful', f'{descr}: {m}', None, m))
+        if col is None or len(col) != len(want) or not all(precise(a, b, vals) for a, b in zip(col, want)):
+            fails.append(Fail(f'{PID}:{OP}:stdev:precision', f'{descr}: aggregate(stdev_over) = {col!r}; exact sample standard deviation '
+                                                              f'per group = {want!r} (relative tolerance {REL_TOL})', want, col, f'{PID}:{OP}:stdev:elem'))
+    except Exception as e:
+        fails.append(Fail(f'{PID}:{OP}:stdev:precision-raises', f'{descr}: aggregate(stdev_over) raised {e!r}', want, repr(e), f'{PID}:{OP}:stdev:elem'))
+    whole = exact_stdev(vals)
+    try:
+        got = v.stdev()
+        if not precise(got, whole, vals):
+            fails.append(Fail(f'{PID}:Vector.stdev:precision', f'Vector({vals!r}).stdev() = {got!r}; exact sample standard deviation = {whole!r} '
+                                                                f'(relative tolerance {REL_TOL})', whole, got, f'{PID}:lemma:whole-column'))
+    except Exception as e:
+        fails.append(Fail(f'{PID}:Vector.stdev:precision-raises', f'Vector({vals!r}).stdev() raised {e!r}', whole, repr(e), f'{PID}:lemma:whole-column'))
+    return fails
+
+
 def evaluate(case):
     if case['op'] == 'whole':
         return eval_whole(case)
+    if case['op'] == 'repeat':
+        return eval_repeat(PID, case)
+    if case['op'] == 'precision':
+        return eval_precision(case)
     descr = agg_descr(case, OP)
     try:
         s = AggSetup(case)
@@ -135,16 +187,17 @@ def evaluate(case):
         return [Fail(f'{PID}:setup:raises:{type(e).__name__}', f'{descr}: building the table raised {e!r}', None, repr(e))]
     before = s.snapshot()
     fails = []
+    site = agg_site(OP, case)
     try:
         res = s.T.aggregate(s.over, **s.kwargs)
     except Exception as e:
-        return [Fail(f'{PID}:{OP}:raises:{type(e).__name__}', f'{descr}: raised {e!r}', None, repr(e), f'{PID}:{OP}:post')]
+        return [Fail(f'{PID}:{site}:raises:{type(e).__name__}', f'{descr}: raised {e!r}', None, repr(e), f'{PID}:{OP}:post')]
     try:
-        check_groups(PID, OP, res, s, fails, descr)
+        check_groups(PID, site, res, s, fails, descr)
     except Exception as e:      # a malformed result must become a failure, not a harness crash
-        fails.append(Fail(f'{PID}:{OP}:malformed-result', f'{descr}: result could not be read: {e!r}', None, repr(e)))
+        fails.append(Fail(f'{PID}:{site}:malformed-result', f'{descr}: result could not be read: {e!r}', None, repr(e)))
     if s.snapshot() != before:
-        fails.append(Fail(f'{PID}:{OP}:input-modified', f'{descr}: the table or a key vector changed', before, s.snapshot()))
+        fails.append(Fail(f'{PID}:{site}:input-modified', f'{descr}: the table or a key vector changed', before, s.snapshot()))
     return fails
 
 
@@ -157,7 +210,12 @@ if __name__ == '__main__':
          rule='every table of each block in `bound` (rows = key tuple + value), keys by name / column vector / external vector '
               '(rotating with the table index), built-in sets as per the block plan, apply recording its calls; compared with '
               'hand grouping + textbook reducers (1e-9); plus Vector.sum/mean/min/max/stdev vs single-group aggregate for every '
-              'vector of length 1..4 over {None,1,2.5} and {None,0,1,2} with >=1 non-None. distinct = distinct (nk, mode, rows, '
+              'vector of length 1..4 over {None,1,2.5} and {None,0,1,2} with >=1 non-None; plus call histories on one table object '
+              '(new external key vectors / key or value column overwritten through its live view between calls; every ordered '
+              'pair of distinct 3-row key vectors and long runs) and stdev of large-offset values vs an exact Fraction reference '
+              '(relative 1e-9). distinct = distinct (nk, mode, rows, '
               'groups, interleaved, all-None group, None key, aggs, apply) signatures',
-         bound=lambda tier: dict(agg_bound(tier), whole_column_pools=[p for _, p in WHOLE_POOLS], whole_column_max_len=4),
+         bound=lambda tier: dict(agg_bound(tier), whole_column_pools=[p for _, p in WHOLE_POOLS], whole_column_max_len=4,
+                                 repeat_variants=REPEAT_VARIANTS, repeat_key_vectors='{None,0,1}^3 ordered pairs; runs over ^3 and ^4',
+                                 precision_families=[f for f, _ in PRECISION_FAMILIES], precision_len=[2, 4 if tier == 'quick' else 5]),
          nontrivial=nontrivial)
